@@ -205,6 +205,17 @@ theorem cacheKey_source :
       "if DisableCache { return false, func(...){} }; cacheTuple := BatchTuple{PublicKey: pk, Message: msg, Signature: sig}; key := cacheTuple.Key(); addToCache = func(...){SignatureCache.Set(key, []byte{0})}; _, notFoundErr := SignatureCache.Get(key); found = notFoundErr == nil; return" := by
   decide
 
+/-- Sound insertion: in the ed25519 lane of the batch verifier tuples are written into the signature
+cache only on the branch where the batch equation HELD; when it fails, only the one-by-one closure
+caches, and only what `VerifyBytes` accepted (`batch_verifier_verifies_every_lane_member` pins the
+closure). So `remembered` in `cache_hit_sound` really is a set of verified triples: a forged tuple that
+made a batch fail is not left behind as "verified" for its next presentation. -/
+theorem cache_populated_only_after_success :
+    Gen.Auth.ed25519CacheOnlyAfterSuccess = true ∧
+    Gen.Auth.ed25519BatchDecision =
+      "if !verifier.VerifyBatchOnly(rand.Reader) { verifyBatch(b.ed25519[idx]) } else { for i, _ := range notInCache { _ = SignatureCache.Set(cacheKeys[i], []byte{0}) } }" := by
+  decide
+
 /-- the key determines the triple once the lengths of key and signature are fixed (they are, per
 signature scheme: 48/96 BLS, 32/64 ed25519, 33/64 secp256k1, 64/64 eth-secp256k1) -/
 theorem cacheKey_injective (pk pk' m m' sg sg' : Bytes) (hp : pk.length = pk'.length) (hs : sg.length = sg'.length)
